@@ -10,6 +10,12 @@
     observed as [raised] when the exception reached the caller, else as the plain value;
     the twin's fresh values are those of the plain getter.
 
+    [GetTscResize t] is the [terminal_size_cached] probe called with a resize to [t]
+    armed inside its body (the body reads the terminal, then resizes it, then returns);
+    the twin's fresh value is the one for the terminal the call was made at.  What such
+    a call must NOT do — leave its value behind under the NEW size — is judged at the
+    probe calls that follow it, against the twin's fresh value for the new terminal.
+
     [check] returns 0 = agrees with model and specification; 1 = differs from the model
     (or the model's [fresh_*] differ from the twin's values); 2 = the observed behaviour
     contradicts the specification (only judged when the history satisfies the
@@ -78,7 +84,7 @@ Definition fresh_view (e : tenv) (h : hstate) (o : op) (q : bool) : list Z :=
   | GetCellRatio => view_ratio (fresh_dyn_ratio e t sw q)
   | GetColors k => view_col (fresh_col e t sw q k)
   | GetNameVersion | IsOnKitty => view_nv (fresh_nv e t sw q)
-  | GetTsc => view_ratio (fresh_tsc t)
+  | GetTsc | GetTscResize _ => view_ratio (fresh_tsc t)
   | _ => []
   end.
 
@@ -112,7 +118,7 @@ Definition same_val (o : op) (obs fr : list Z) : bool := zl_eqb obs (derive o fr
 
 Definition judged (h : hstate) (o : op) : bool :=
   match plain o with
-  | GetCellSize | GetColors _ | GetNameVersion | IsOnKitty | GetTsc => true
+  | GetCellSize | GetColors _ | GetNameVersion | IsOnKitty | GetTsc | GetTscResize _ => true
   | GetCellRatio => match h_ratio h with Dynamic => true | Fixed _ => false end
   | _ => false
   end.
